@@ -94,7 +94,8 @@ fn apply_patch_with_data(
             let new_byte = apply_diff_byte(old_byte, diff_byte);
 
             output.push(new_byte);
-            old_pos += 1;
+            // Seeks saturate, so the position can already be at usize::MAX
+            old_pos = old_pos.saturating_add(1);
         }
 
         // Copy extra block
@@ -280,7 +281,8 @@ impl<R: Read + Seek> ZbsdiffPatcher<R> {
                 output.push(apply_diff_byte(*old_byte, *diff_byte));
             }
 
-            *old_pos += chunk_size;
+            // Seeks saturate, so the position can already be at usize::MAX
+            *old_pos = old_pos.saturating_add(chunk_size);
             remaining -= chunk_size;
         }
 
@@ -374,7 +376,7 @@ impl ZbsdiffHeader {
 #[allow(clippy::expect_used, clippy::unwrap_used)]
 mod tests {
     use super::*;
-    use crate::zbsdiff::ZbsdiffBuilder;
+    use crate::zbsdiff::{ControlEntry, ZbsdiffBuilder};
     use std::io::Cursor;
 
     #[test]
@@ -405,6 +407,29 @@ mod tests {
 
         let result = apply_patch_memory(old_data, &patch_data).expect("Operation should succeed");
         assert_eq!(result, new_data);
+    }
+
+    #[test]
+    fn test_position_saturated_by_seeks_does_not_overflow() {
+        // Two seeks of i64::MAX leave the old-file position at usize::MAX - 1
+        // (seeks saturate); the two diff bytes that follow used to overflow it
+        let control = ControlBlock {
+            entries: vec![
+                ControlEntry::new(0, 0, i64::MAX),
+                ControlEntry::new(0, 0, i64::MAX),
+                ControlEntry::new(2, 0, 0),
+            ],
+        };
+        let diff = [5u8, 6];
+
+        let out = apply_patch_with_data(b"wxyz", &control, &diff, &[], 2)
+            .expect("Operation should succeed");
+        assert_eq!(out, diff, "positions beyond the old file read as zero");
+
+        let out = ZbsdiffPatcher::new(Cursor::new(b"wxyz"), 2)
+            .apply_patch(&control, &diff, &[])
+            .expect("Operation should succeed");
+        assert_eq!(out, diff);
     }
 
     #[test]
